@@ -51,10 +51,13 @@ class Interp:
         self.persistent = {}            # oid -> Obj for 'global' region objects (class attributes, defaults)
         self.typestate_mode = False     # C14: loops run at least once; all-elements loops update summaries strongly
         self.loop_iters = {}            # loop id -> iterable value
+        self.constructing = False       # inside the bandit's constructor (World._build)
 
     # ============================================================================================ allocation
     def alloc(self, cls, region, site, label=None, key=None) -> Obj:
-        ctx = (key if key is not None else id(site), tuple(id(n) for _, n in self.callstack), self.loops, self.epoch,
+        # during construction the elements a loop creates are one abstract element (as those of a comprehension are)
+        loops = tuple(l for l, _ in self.loops) if self.constructing else self.loops
+        ctx = (key if key is not None else id(site), tuple(id(n) for _, n in self.callstack), loops, self.epoch,
                cls, region)
         oid = self.alloc_cache.get(ctx)
         if oid is None or oid not in self.heap.objs:
